@@ -338,6 +338,56 @@ theorem C16_tamper_ecdsa_octets (size : Nat) (sig sig' : Bytes) (r s : Nat)
       unfold ecSigDecode; rw [if_neg hl, heq]
     exact (ecSigDecode_inj size h h2).symm
 
+/-- Multi-signature JWS (JSON serialisation): every signer's key verifies the object to the original
+payload, whatever the other signers, algorithms and protected headers are. -/
+theorem C16_roundtrip_jws_multi {SK PK : Type} (P : SigPrim SK PK) (hP : IdealSig P)
+    (signers : List (SK × Bytes)) (payload : Bytes) (sk : SK) (prot : Bytes) (hmem : (sk, prot) ∈ signers) :
+    jwsVerifyMulti P (P.pub sk) (jwsSignMulti P signers payload) = ok payload := by
+  unfold jwsVerifyMulti jwsSignMulti
+  have : (List.map (fun s : SK × Bytes => ({ prot := s.2, sig := P.sign s.1 (signingInput s.2 payload) } : SigEntry)) signers).any
+      (fun e => P.verify (P.pub sk) (signingInput e.prot payload) e.sig) = true := by
+    rw [List.any_eq_true]
+    exact ⟨_, List.mem_map.mpr ⟨(sk, prot), hmem, rfl⟩, hP.verify_sign sk _⟩
+  simp only [this, if_true]
+
+/-- … and a change to the protected header octets of ONE signature (its signature octets and all other
+entries kept) makes verification under that signer's key fail, provided the other signers' keys are
+different keys: a signature is only ever checked against its own protected header as received. -/
+theorem C16_tamper_jws_multi {SK PK : Type} (P : SigPrim SK PK) (hP : IdealSig P)
+    (pre post : List (SK × Bytes)) (sk : SK) (prot prot' payload : Bytes) (hne : prot' ≠ prot)
+    (hkeys : ∀ s ∈ pre ++ post, P.pub s.1 ≠ P.pub sk) :
+    let o := jwsSignMulti P (pre ++ (sk, prot) :: post) payload
+    let o' : JwsMulti := ⟨payload, (jwsSignMulti P pre payload).sigs ++
+      (⟨prot', P.sign sk (signingInput prot payload)⟩ : SigEntry) :: (jwsSignMulti P post payload).sigs⟩
+    jwsVerifyMulti P (P.pub sk) o = ok payload ∧ jwsVerifyMulti P (P.pub sk) o' = err .generic := by
+  intro o o'
+  refine ⟨C16_roundtrip_jws_multi P hP _ payload sk prot (by simp), ?_⟩
+  have hother : ∀ l : List (SK × Bytes), (∀ s ∈ l, P.pub s.1 ≠ P.pub sk) →
+      (jwsSignMulti P l payload).sigs.any (fun e => P.verify (P.pub sk) (signingInput e.prot payload) e.sig) = false := by
+    intro l hl
+    rw [List.any_eq_false]
+    intro e he
+    simp only [jwsSignMulti, List.mem_map] at he
+    obtain ⟨s, hs, rfl⟩ := he
+    simp [hP.key_sep s.1 sk _ (hl s hs)]
+  have hmid : P.verify (P.pub sk) (signingInput prot' payload) (P.sign sk (signingInput prot payload)) = false := by
+    cases hv : P.verify (P.pub sk) (signingInput prot' payload) (P.sign sk (signingInput prot payload)) with
+    | false => rfl
+    | true =>
+      exfalso
+      have h1 := hP.unforgeable sk _ _ hv
+      have h2 := hP.collision_free sk _ _ h1
+      exact hne (signingInput_inj h2).1.symm
+  unfold jwsVerifyMulti
+  have : o'.sigs.any (fun e => P.verify (P.pub sk) (signingInput e.prot o'.payload) e.sig) = false := by
+    show (_ ++ _ :: _).any _ = false
+    rw [List.any_append, List.any_cons,
+        hother pre (fun s hs => hkeys s (List.mem_append_left _ hs)),
+        hother post (fun s hs => hkeys s (List.mem_append_right _ hs)), hmid]
+    rfl
+  simp only [this]
+  rfl
+
 /-! ### JWE: round trip and tamper -/
 
 /-- Encrypt (any key management, any AEAD, with or without compression, with or without AAD),
